@@ -625,6 +625,130 @@ theorem strKeysDistinct_keys : ∀ (r kvs : List (PyVal × PyVal)), r.map (·.1)
     rw [hr] at h
     exact congrArg (fun b => (!b && strKeysDistinct kvs)) (h.trans h'.symm)
 
+/-! #### Map with Integer keys -/
+
+theorem c05_pyEq_int_int (a b : Int) : pyEq (.int a) (.int b) = (a == b) := by
+  by_cases h : a = b <;> simp [pyEq, PyVal.asNum, Q.eq, Q.ofInt, h]
+
+def keyFreshI (i : Int) (acc : List (PyVal × PyVal)) : Bool :=
+  !(acc.any fun kv => match kv.1 with | .int j => i == j | _ => true)
+
+theorem dictSet_freshI (i : Int) (v : PyVal) : ∀ acc : List (PyVal × PyVal),
+    keyFreshI i acc = true → dictSet (.int i) v acc = acc ++ [(.int i, v)]
+  | [], _ => rfl
+  | (k', v') :: rest, h => by
+    simp only [keyFreshI, List.any_cons, Bool.not_or, and_true_iff] at h
+    have hne : pyEq (.int i) k' = false := by
+      cases k' <;> simp at h
+      rename_i j
+      rw [c05_pyEq_int_int]; simpa using h.1
+    simp only [dictSet, hne, Bool.false_eq_true, if_false, List.cons_append]
+    congr 1
+    exact dictSet_freshI i v rest (by simp only [keyFreshI]; exact h.2)
+
+theorem keyFreshI_append (i : Int) (acc : List (PyVal × PyVal)) (j : Int) (v : PyVal)
+    (h1 : keyFreshI i acc = true) (h2 : (i == j) = false) : keyFreshI i (acc ++ [(.int j, v)]) = true := by
+  simp only [keyFreshI, List.any_append, Bool.not_or, and_true_iff] at h1 ⊢
+  exact ⟨h1, by simp [h2]⟩
+
+theorem foldl_dictSet_distinctI : ∀ (kvs acc : List (PyVal × PyVal)),
+    intKeysDistinct kvs = true →
+    (∀ kv ∈ kvs, ∀ i, kv.1 = .int i → keyFreshI i acc = true) →
+    kvs.foldl (fun a kv => dictSet kv.1 kv.2 a) acc = acc ++ kvs
+  | [], acc, _, _ => by simp
+  | (key, v) :: rest, acc, hd, hf => by
+    cases key with
+    | int i =>
+      simp only [intKeysDistinct, and_true_iff] at hd
+      have hk := hf (.int i, v) (by simp) i rfl
+      simp only [List.foldl_cons, dictSet_freshI i v acc hk]
+      have hrest : ∀ kv ∈ rest, ∀ i2, kv.1 = .int i2 → keyFreshI i2 (acc ++ [(.int i, v)]) = true := by
+        intro kv hkv i2 hk2
+        apply keyFreshI_append i2 acc i v (hf kv (by simp [hkv]) i2 hk2)
+        have h1 := hd.1
+        simp only [Bool.not_eq_true', List.any_eq_false] at h1
+        have := h1 kv hkv
+        rw [hk2] at this
+        simp only [Bool.not_eq_true] at this
+        cases hkk : (i2 == i)
+        · rfl
+        · have e : i2 = i := by simpa using hkk
+          subst e; simp at this
+      have ih := foldl_dictSet_distinctI rest (acc ++ [(.int i, v)]) hd.2 hrest
+      rw [ih]; simp
+    | _ => simp [intKeysDistinct] at hd
+
+theorem dictOfPairs_distinctI (kvs : List (PyVal × PyVal)) (h : intKeysDistinct kvs = true) :
+    dictOfPairs kvs = kvs := by
+  unfold dictOfPairs
+  have := foldl_dictSet_distinctI kvs [] h (fun _ _ _ _ => rfl)
+  simpa using this
+
+theorem intKeys_hashable : ∀ (kvs : List (PyVal × PyVal)), intKeysDistinct kvs = true →
+    kvs.any (fun kv => unhashable kv.1) = false
+  | [], _ => rfl
+  | (key, v) :: rest, h => by
+    cases key with
+    | int i =>
+      simp only [intKeysDistinct, and_true_iff] at h
+      simp [unhashable, intKeys_hashable rest h.2]
+    | _ => simp [intKeysDistinct] at h
+
+theorem intKeysDistinct_keys : ∀ (r kvs : List (PyVal × PyVal)), r.map (·.1) = kvs.map (·.1) →
+    intKeysDistinct r = intKeysDistinct kvs
+  | [], [], _ => rfl
+  | [], _ :: _, h => by simp at h
+  | _ :: _, [], h => by simp at h
+  | (k, v) :: r, (k', v') :: kvs, h => by
+    simp only [List.map_cons, List.cons.injEq] at h
+    obtain ⟨hk, hr⟩ := h
+    subst hk
+    have ih := intKeysDistinct_keys r kvs hr
+    cases k <;> simp only [intKeysDistinct, ih]
+    rename_i s
+    have h := any_fst_map (fun key => match key with | .int k' => s == k' | _ => true) r
+    have h' := any_fst_map (fun key => match key with | .int k' => s == k' | _ => true) kvs
+    rw [hr] at h
+    exact congrArg (fun b => (!b && intKeysDistinct kvs)) (h.trans h'.symm)
+
+theorem c05_intKeys_int : ∀ (kvs : List (PyVal × PyVal)), intKeysDistinct kvs = true →
+    ∀ kv ∈ kvs, ∃ i, kv.1 = .int i
+  | [], _, kv, hkv => by simp at hkv
+  | (key, v) :: rest, h, kv, hkv => by
+    cases key <;> simp [intKeysDistinct] at h
+    rename_i i
+    rcases List.mem_cons.mp hkv with rfl | hr
+    · exact ⟨i, rfl⟩
+    · exact c05_intKeys_int rest h.2 kv hr
+
+/-- entry-wise round trip of a Map with Integer keys -/
+theorem RT_pairsI (O : Oracles) (opts : DeserOpts) (o : NumOpts) (vf : FieldDecl) :
+    ∀ kvs : List (PyVal × PyVal),
+      (∀ kv ∈ kvs, (∃ i, kv.1 = .int i) ∧ aInteger o kv.1 = true ∧ RT O opts vf kv.2) →
+      ∃ r, mapE (fun (kv : PyVal × PyVal) =>
+              bindE (ser O (.integer o) kv.1) fun k' => bindE (ser O vf kv.2) fun v' => .ok (k', v')) kvs = .ok r
+        ∧ isJsonPairs r = true ∧ r.map (·.1) = kvs.map (·.1)
+        ∧ mapE (fun (kv : PyVal × PyVal) =>
+              bindE (deser O opts false vf kv.2) fun v' =>
+              bindE (deser O opts false (.integer o) kv.1) fun k' => .ok (k', v')) r = .ok kvs
+        ∧ mapE (fun (kv : PyVal × PyVal) =>
+              bindE (validate O (.integer o) kv.1) fun k' =>
+              bindE (validate O vf kv.2) fun v' => .ok (k', v')) kvs = .ok kvs
+  | [], _ => ⟨[], rfl, rfl, rfl, rfl, rfl⟩
+  | (key, v) :: rest, h => by
+    rcases h (key, v) (by simp) with ⟨⟨i, hk⟩, hs, j, h1, h2, _, h4, h5⟩
+    simp only at hk; subst hk
+    rcases rt_integer O opts o (.int i) hs with ⟨jk, k1, _, _, k4, k5⟩
+    have hjk : jk = .int i := by simp [ser, sScalar] at k1; exact k1.symm
+    subst hjk
+    rcases RT_pairsI O opts o vf rest (fun kv hkv => h kv (by simp [hkv])) with ⟨r, g1, g2, g3, g4, g5⟩
+    refine ⟨(.int i, j) :: r, ?_, ?_, ?_, ?_, ?_⟩
+    · simp [mapE, k1, h1, g1]
+    · simp [isJsonPairs, isJsonKey, h2, g2]
+    · simp [g3]
+    · simp [mapE, h4, k4, g4]
+    · simp [mapE, k5, h5, g5]
+
 /-- entry-wise round trip of a Map with String keys -/
 theorem RT_pairs (O : Oracles) (opts : DeserOpts) (lo hi : Option Nat) (pat : Option String) (vf : FieldDecl) :
     ∀ kvs : List (PyVal × PyVal),
@@ -760,41 +884,67 @@ theorem round_trip (O : Oracles) (opts : DeserOpts) : ∀ (f : FieldDecl) (v : P
     | _ => simp at hv
   | .mapAny _, _, _, hf => by simp [inFrag] at hf
   | .mapOf kf vf sz, v, hc, hf => by
-    simp only [inFrag, and_true_iff] at hf
-    obtain ⟨hkf, hv⟩ := hf
-    cases kf <;> simp [isStringDecl] at hkf
-    rename_i lo hi pat
+    simp only [inFrag] at hf
     cases v with
     | dict kvs =>
-      simp only [and_true_iff] at hv
-      obtain ⟨hdist, hall⟩ := hv
+      simp only [and_true_iff] at hf
+      obtain ⟨hkeys, hall⟩ := hf
       simp only [conforms, cMap, and_true_iff] at hc
-      have hkeys : ∀ kv ∈ kvs, ∃ k, kv.1 = .str k := by
-        intro kv hkv
-        have := (List.all_eq_true.mp hc.2) kv hkv
-        simp only [and_true_iff, conforms, aString] at this
-        cases hk : kv.1 <;> simp [hk] at this
-        exact ⟨_, rfl⟩
-      have hpt : ∀ kv ∈ kvs, (∃ k, kv.1 = .str k) ∧ aString O lo hi pat kv.1 = true
-          ∧ RT O opts vf kv.2 := by
-        intro kv hkv
-        have hck := (List.all_eq_true.mp hc.2) kv hkv
-        simp only [and_true_iff, conforms] at hck
-        exact ⟨hkeys kv hkv, hck.1,
-          round_trip O opts vf kv.2 hck.2 ((List.all_eq_true.mp hall) kv hkv)⟩
-      rcases RT_pairs O opts lo hi pat vf kvs hpt with ⟨r, g1, g2, g3, g4, g5⟩
-      have hrd : strKeysDistinct r = true := by rw [strKeysDistinct_keys r kvs g3]; exact hdist
-      refine ⟨.dict r, ?_, by simp [isJson, g2], rfl, ?_, ?_⟩
-      · simp only [ser] at g1
-        simp only [ser, sMap, g1]
-        simp [bindE, strKeys_hashable r hrd, dictOfPairs_distinct r hrd]
-      · simp only [deser] at g4
-        simp only [deser, dMap, g4]
-        simp [bindE, PyVal.isNone, strKeys_hashable kvs hdist, dictOfPairs_distinct kvs hdist]
-      · simp only [validate] at g5
-        simp only [validate, vMap, g5]
-        simp [bindE, dictOfPairs_distinct kvs hdist, hc.1]
-    | _ => simp at hv
+      rcases (Bool.or_eq_true _ _).mp hkeys with hS | hI
+      · -- String keys
+        simp only [and_true_iff] at hS
+        obtain ⟨hkf, hdist⟩ := hS
+        cases kf <;> simp [isStringDecl] at hkf
+        rename_i lo hi pat
+        have hkeysS : ∀ kv ∈ kvs, ∃ k, kv.1 = .str k := by
+          intro kv hkv
+          have := (List.all_eq_true.mp hc.2) kv hkv
+          simp only [and_true_iff, conforms, aString] at this
+          cases hk : kv.1 <;> simp [hk] at this
+          exact ⟨_, rfl⟩
+        have hpt : ∀ kv ∈ kvs, (∃ k, kv.1 = .str k) ∧ aString O lo hi pat kv.1 = true
+            ∧ RT O opts vf kv.2 := by
+          intro kv hkv
+          have hck := (List.all_eq_true.mp hc.2) kv hkv
+          simp only [and_true_iff, conforms] at hck
+          exact ⟨hkeysS kv hkv, hck.1,
+            round_trip O opts vf kv.2 hck.2 ((List.all_eq_true.mp hall) kv hkv)⟩
+        rcases RT_pairs O opts lo hi pat vf kvs hpt with ⟨r, g1, g2, g3, g4, g5⟩
+        have hrd : strKeysDistinct r = true := by rw [strKeysDistinct_keys r kvs g3]; exact hdist
+        refine ⟨.dict r, ?_, by simp [isJson, g2], rfl, ?_, ?_⟩
+        · simp only [ser] at g1
+          simp only [ser, sMap, g1]
+          simp [bindE, strKeys_hashable r hrd, dictOfPairs_distinct r hrd]
+        · simp only [deser] at g4
+          simp only [deser, dMap, g4]
+          simp [bindE, PyVal.isNone, strKeys_hashable kvs hdist, dictOfPairs_distinct kvs hdist]
+        · simp only [validate] at g5
+          simp only [validate, vMap, g5]
+          simp [bindE, dictOfPairs_distinct kvs hdist, hc.1]
+      · -- Integer keys
+        simp only [and_true_iff] at hI
+        obtain ⟨hkf, hdist⟩ := hI
+        cases kf <;> simp [isIntDecl] at hkf
+        rename_i o
+        have hpt : ∀ kv ∈ kvs, (∃ i, kv.1 = .int i) ∧ aInteger o kv.1 = true ∧ RT O opts vf kv.2 := by
+          intro kv hkv
+          have hck := (List.all_eq_true.mp hc.2) kv hkv
+          simp only [and_true_iff, conforms] at hck
+          exact ⟨c05_intKeys_int kvs hdist kv hkv, hck.1,
+            round_trip O opts vf kv.2 hck.2 ((List.all_eq_true.mp hall) kv hkv)⟩
+        rcases RT_pairsI O opts o vf kvs hpt with ⟨r, g1, g2, g3, g4, g5⟩
+        have hrd : intKeysDistinct r = true := by rw [intKeysDistinct_keys r kvs g3]; exact hdist
+        refine ⟨.dict r, ?_, by simp [isJson, g2], rfl, ?_, ?_⟩
+        · simp only [ser] at g1
+          simp only [ser, sMap, g1]
+          simp [bindE, intKeys_hashable r hrd, dictOfPairs_distinctI r hrd]
+        · simp only [deser] at g4
+          simp only [deser, dMap, g4]
+          simp [bindE, PyVal.isNone, intKeys_hashable kvs hdist, dictOfPairs_distinctI kvs hdist]
+        · simp only [validate] at g5
+          simp only [validate, vMap, g5]
+          simp [bindE, dictOfPairs_distinctI kvs hdist, hc.1]
+    | _ => simp at hf
   | .struct c fields defaults, v, _, hf => by
     simp only [inFrag, and_true_iff] at hf
     obtain ⟨⟨⟨hinl, hacc⟩, hnd⟩, hv⟩ := hf
